@@ -329,6 +329,17 @@ def _subview(m: BufferMachine, op, vals, core):
     vals[op.result] = View(src.buf, off, sizes, nstr)
 
 
+@handler(memref.ReinterpretCastOp)
+def _reinterpret(m, op, vals, core):
+    src: View = m.get(vals, op.source)
+    if op.offsets or op.sizes or op.strides:
+        raise HarnessError("dynamic reinterpret_cast not modelled")
+    off = [int(x) for x in op.static_offsets.get_values()][0]
+    # offsets of a reinterpret_cast count from the base of the allocation (the generator only applies it to allocations, whose
+    # view starts at that base)
+    vals[op.result] = View(src.buf, src.offset + off, [int(x) for x in op.static_sizes.get_values()], [int(x) for x in op.static_strides.get_values()])
+
+
 @handler(memref.MemorySpaceCastOp, snax.LayoutCast, memref.CastOp)
 def _cast_alias(m, op, vals, core):
     # a cast that is still there names the same memory (realize-memref-casts leaves dead casts behind for DCE)
